@@ -410,7 +410,10 @@ def gen_tpl(rng, nholes, args, badspec=0.0, d11=False):
 
 def new_stmt(rng, tpl, args):
     lvl = rng.choice([4, 4, 4, 3, 5, 6, 7, 8, 0])
-    return {'ts': rng.choice([0, 1, 1700000000123456789, rng.randrange(1, 2 ** 63)]), 'level': lvl, 'line': rng.randrange(1, 5000), 'tpl': tpl, 'args': args}
+    return {'ts': rng.choice([0, 1, 1700000000123456789, rng.randrange(1, 2 ** 63)]), 'level': lvl,
+            # half of the statements share one of two source lines (two LOG_ calls expanded from one user macro have the same
+            # file:line with different templates: the template cache must not be keyed by the source location)
+            'line': rng.choice([7, 42]) if rng.random() < 0.5 else rng.randrange(1, 5000), 'tpl': tpl, 'args': args}
 
 
 FILES = [b'na_case.cpp', b'main.cpp', b'a.h', b'file name.cc']     # MacroMetadata::file_name() is the base name
